@@ -143,6 +143,11 @@ func (c *StreamConn) Read(p []byte) (int, error) {
 		if closed {
 			return 0, &net.OpError{Op: "read", Net: "tcp", Err: net.ErrClosed}
 		}
+		// like the runtime poller (prepareRead): an expired deadline fails the call before any
+		// I/O is attempted, even when data is waiting
+		if !dl.IsZero() && !time.Now().Before(dl) {
+			return 0, &net.OpError{Op: "read", Net: "tcp", Err: os.ErrDeadlineExceeded}
+		}
 		h := c.rd
 		h.mu.Lock()
 		if h.reset {
@@ -178,6 +183,11 @@ func (c *StreamConn) Write(p []byte) (int, error) {
 		c.mu.Unlock()
 		if closed {
 			return written, &net.OpError{Op: "write", Net: "tcp", Err: net.ErrClosed}
+		}
+		// like the runtime poller (prepareWrite): an expired deadline fails the call before any
+		// byte is written, even when the peer has room
+		if !dl.IsZero() && !time.Now().Before(dl) {
+			return written, &net.OpError{Op: "write", Net: "tcp", Err: os.ErrDeadlineExceeded}
 		}
 		h := c.wr
 		h.mu.Lock()
